@@ -776,6 +776,10 @@ class _Unmarshaller:
 
 
 def _read(self, n):
+    if n < 0:
+        # A negative size would step backwards in the buffer and read the
+        # same item again, for ever when it sits inside a dict or list.
+        raise ValueError("bad marshal data (negative size)")
     pos = self.bufpos
     newpos = pos + n
     if newpos > len(self.bufstr):
